@@ -5,6 +5,37 @@
 open Common
 open Model
 
+(* round 5: the word size of the build that answered (token wb=<bits> of every `ok` answer; panics carry none: the
+   environment variable C13_W set by the plug-in for the other build, default 64).  Every as-is run below is the
+   word-size-parametrised instance (ModRingWInst.v, proved = specification for every w >= 8: C13_wrun_..., C13_whrun_...). *)
+let wr = ref 64
+let env_w = match Sys.getenv_opt "C13_W" with Some s -> (try int_of_string s with _ -> 64) | None -> 64
+let zw () = Zar.of_int !wr
+let run_reduce m x = grun_reduce (zw ()) m x
+let run_bin o i1 i2 m1 m2 x y = grun_bin (zw ()) o i1 i2 m1 m2 x y
+let run_un o m x = grun_un (zw ()) o m x
+let run_pow m x e = grun_pow (zw ()) m x e
+let run_inv m x = grun_inv (zw ()) m x
+let run_eq i1 i2 m1 m2 x y = grun_eq (zw ()) i1 i2 m1 m2 x y
+let run_rd st o m x y = grun_rd (zw ()) st o m x y
+let run_rd_inv m x = grun_rd_inv (zw ()) m x
+let run_rd_check st m t = grun_rd_check (zw ()) st m t
+let rd_check_spec m t = grd_check_spec (zw ()) m t
+let run_rd_modulus m = grun_rd_modulus (zw ()) m
+let i_new id m = gi_new (zw ()) id m
+let hrun_reduce m x = ghrun_reduce (zw ()) m x
+let hrun_bin o m x y = ghrun_bin (zw ()) o m x y
+let hrun_un o m x = ghrun_un (zw ()) o m x
+let hrun_pow m x e = ghrun_pow (zw ()) m x e
+let hrun_inv m x = ghrun_inv (zw ()) m x
+let hrun_eq m x y = ghrun_eq (zw ()) m x y
+let hrun_transform m x = ghrun_transform (zw ()) m x
+let hrun_inv_src m x = ghrun_inv_src (zw ()) m x
+let hrun_div_src m x y = ghrun_div_src (zw ()) m x y
+let hrun_gcd_probe m x = ghrun_gcd_probe (zw ()) m x
+let hrun_rd_lin o m x y = ghrun_rd_lin (zw ()) o m x y
+let run_clone_from m1 m2 x y c = grun_clone_from (zw ()) m1 m2 x y c
+
 let reason_s = function
   | DivideBy0 -> "DivideBy0" | NegativeUBig -> "NegativeUBig" | DifferentRings -> "DifferentRings"
   | NonInvertible -> "NonInvertible" | Undocumented -> "Undocumented" | _ -> "Other"
@@ -34,7 +65,7 @@ let fid asis got = "asis=" ^ if split_ws asis = norm_got got then "same" else "d
 let fid2 asis asis2 got =
   "asis=" ^ (if split_ws asis = norm_got got && split_ws asis2 = norm_got got then "same" else "diff")
 
-let path_s m = if Zar.geq m (Zar.shift_left Zar.one 128) then "path=words" else "path=nm"
+let path_s m = if Zar.geq m (Zar.shift_left Zar.one (2 * !wr)) then "path=words" else "path=nm"
 
 (* round 4: a THIRD as-is run for inverse and division of the multi-word ring - word lists + real kernels + the extended gcd
    of the source (gcd_ext_word / gcd_ext_dword transcribed, C12's as-is Lehmer gcd_ext_in_place, logarithmic fuels);
@@ -44,7 +75,7 @@ let fid3 asis asis2 asis3 probe_ok got =
   "asis=" ^ (if probe_ok && split_ws asis = norm_got got && split_ws asis2 = norm_got got && split_ws asis3 = norm_got got then "same" else "diff")
 
 let gcd_probe m x =
-  if Zar.lt m (Zar.shift_left Zar.one 128) then (true, "gcd-invm")
+  if Zar.lt m (Zar.shift_left Zar.one (2 * !wr)) then (true, "gcd-invm")
   else match hrun_gcd_probe m x with
     | Ok (((br, _), _), _) ->
         (true, "gcd-" ^ (match Zar.to_int br with 0 -> "zero" | 1 -> "word" | 2 -> "dword" | _ -> "lehmer"))
@@ -54,13 +85,22 @@ let gcd_probe m x =
 let kind_s m =
   match i_new Zar.zero m with
   | Ok r -> (match r_kind r with KSingle -> "single" | KDouble -> "double" | KLarge -> "large")
-            ^ (if Zar.sign (r_shift r) = 0 then "-aligned" else "-shifted")
+            ^ (if Zar.sign (r_shift r) = 0 then "-aligned" else "-shifted") ^ (if !wr = 64 then "" else "@w" ^ string_of_int !wr)
   | _ -> "invalid"
 
 let binop_of = function "add" -> OAdd | "sub" -> OSub | "mul" -> OMul | _ -> ODiv
 let unop_of = function "neg" -> ONeg | "dbl" -> ODbl | _ -> OSqr
 
-let judge op args got =
+let rec judge op args got =
+  (* the word-size token: last token of an `ok` answer *)
+  match List.rev got with
+  | t :: rest when String.length t > 3 && String.sub t 0 3 = "wb=" ->
+      wr := (try int_of_string (String.sub t 3 (String.length t - 3)) with _ -> env_w);
+      let r = judge0 op args (List.rev rest) in
+      r
+  | _ -> wr := env_w; judge0 op args got
+
+and judge0 op args got =
   let a i = z (List.nth args i) in
   let s i = List.nth args i in
   let zero = Zar.zero and one = Zar.one in
@@ -99,7 +139,7 @@ let judge op args got =
       let m = a 1 and x = a 2 and e = a 3 in
       (* the word-list instance multiplies and divides lists word by word: its cost grows with n^2 * bits of the exponent;
          beyond the budget (about 64 words x 480 bits) only the value-level instance is evaluated *)
-      let n = (Zar.numbits m + 63) / 64 in
+      let n = (Zar.numbits m + !wr - 1) / !wr in
       if n * n * Zar.numbits e > 2_000_000 then
         expect ~extra:(fid (render hx (run_pow m x e)) got ^ " cls=" ^ kind_s m ^ " path=words-skipped") ("ok " ^ hx (powm m x e)) got
       else
